@@ -288,9 +288,9 @@ def run_check(ctx, pid):
     if quick:
         runs = [("corpus", ["-mode", "corpus"]),
                 ("pb1", ["-mode", "pb", "-pre", 1, "-tmoevery", 7]),
-                ("pb2", ["-mode", "pb", "-pre", 2, "-progs", "0,2,3,4", "-tmoevery", 15]),
-                ("random", ["-mode", "random", "-n", 40, "-tmoevery", 5]),
-                ("randprog", ["-mode", "randprog", "-n", 100, "-tmoevery", 5])]
+                ("pb2", ["-mode", "pb", "-pre", 2, "-progs", "0,2,4", "-tmoevery", 15]),
+                ("random", ["-mode", "random", "-n", 24, "-tmoevery", 5]),
+                ("randprog", ["-mode", "randprog", "-n", 70, "-tmoevery", 5])]
     else:
         runs = [("corpus", ["-mode", "corpus"]),
                 ("pb2", ["-mode", "pb", "-pre", 2, "-tmoevery", 50]),
@@ -326,7 +326,7 @@ def run_check(ctx, pid):
     ctx.log("judged in Coq: %d cases in %.1fs, %d bad" % (len(terms), time.time() - t0, len(bad)))
     fails = [(i, c) for i, c in bad if c == 1]
     diffs = [(i, c) for i, c in bad if c == 2]
-    if ctx.cov.get("tie_T", {}).get("which") == "pinned":
+    if ctx.cov.get("tie_T", {}).get("which") == "pinned" and (not quick or os.environ.get("VERIF_WG_ORIG")):
         # the source is the pinned algorithm: check that the recorded traces are those of the
         # [_orig] machine, about which the refutation theorems speak
         obad, _, oerr = ctx.judge_cases(HEADER, "wg_case", judge_name + "_orig", terms,
@@ -411,7 +411,7 @@ def run_check(ctx, pid):
         "threads_histogram": hist(len(j["progs"]) - 1 for j in jsons),
         "timeout_probes": hist({0: "nil", 1: "ErrWGTimeout", 2: "hung", 3: "not probed"}[j["tmo"]] for j in jsons),
         "exhaustive": (not quick),
-        "exhaustive_note": "thorough: all schedules of catalogue programs 0,2,3,4 and all <=2-preemption schedules of the whole catalogue; quick: all <=1-preemption schedules of the catalogue, <=2 for four programs, plus random schedules and random programs",
+        "exhaustive_note": "thorough: all schedules of catalogue programs 0,2,3,4 and all <=2-preemption schedules of the whole catalogue; quick: all <=1-preemption schedules of the catalogue, <=2 for three programs, plus random schedules and random programs",
         "samples": [view(j) for j in jsons[:1] + jsons[len(jsons) // 2:len(jsons) // 2 + 1]],
         "violating_cases": len(fails), "model_differences": len(diffs),
     })
